@@ -10,8 +10,11 @@
    (CBOR/COSE/X.509, brotli, ID3, XML, TIFF, the stack and the allocator) is reached only by the mutational run of
    ./check C10, which is exploration, not proof.
 
-   Findings mirrored here: the JUMBF reader as coded ([strict = false], [cadd = false]) hangs on a known class
-   of tails and, in a debug build, panics on `start_pos + jumb_header.size`. *)
+   The JUMBF reader had two defects (an endless loop on a class of 5..7-byte tails; a debug-build overflow panic on
+   `start_pos + jumb_header.size`), repaired in the source by commit 7b268693b: the theorems below are about the
+   repaired reader and hold for every byte string; the old behaviour is kept as explicit statements about the old
+   function.  Still open and outside the proved part: build_bmff_tree costs quadratic time in the number of sibling
+   boxes (the model counts iterations, not the cost of the arena append). *)
 From Coq Require Import List NArith Bool Lia.
 From C2PA Require Import Base.Bytes Generated.C10_facts Model.C10Mach Model.C10Jumbf Model.C10Png Model.C10Bmff
      Proofs.C10JumbfProofs Proofs.C10JumbfLoop Proofs.C10PngProofs Proofs.C10BmffProofs Proofs.C10Summary.
@@ -20,22 +23,49 @@ Open Scope N_scope.
 
 (* ------------------------------------------------------------------ JUMBF box reader *)
 
-(* FINDING (hang): totality is false of the reader as coded — a 41-byte input on which no amount of fuel suffices,
-   in debug and release, with or without a checked dest_pos. *)
-Theorem c10_jumbf_total_refuted :
+(* [jread_as_coded dbg buf] is the reader with the two flags regenerated from the source
+   (SHORT_HEADER_IS_ERROR, DEST_POS_IS_CHECKED): since commit 7b268693b both are true. *)
+
+(* totality: on EVERY byte string [len + 2] units of fuel are enough and the outcome is Ok or Err, in debug and
+   release builds: no hang, no panic, no known class *)
+Theorem c10_jumbf_total :
+  forall dbg buf, len buf <= U64MAX -> is_result (jread_as_coded dbg buf).
+Proof. exact jumbf_as_coded_total. Qed.
+
+(* allocation: 8 bytes of input per box and one per retained content byte (linear in the input);
+   depth: no superbox deeper than MAX_JUMB_DEPTH - 1 is ever entered *)
+Theorem c10_jumbf_alloc_depth :
+  forall dbg buf p b a d,
+    len buf <= U64MAX -> jread_as_coded dbg buf = Ok (p, b, a, d) ->
+    8 * b + a <= len buf /\ p <= len buf /\ d < MAX_JUMB_DEPTH.
+Proof. exact jumbf_as_coded_bounds. Qed.
+
+(* the depth check precedes every read *)
+Theorem c10_jumbf_depth_refused :
+  forall strict cadd dbg depth buf pos,
+    MAX_JUMB_DEPTH <= depth -> jsuper_head strict cadd dbg depth buf pos = Err EBoxNestingTooDeep.
+Proof. exact too_deep. Qed.
+
+(* the same for the model with any setting of the two flags, e.g. a build with only one of the repairs *)
+Theorem c10_jumbf_total_repaired :
+  forall dbg buf, len buf <= U64MAX -> is_result (jread_super_box true true dbg (jfuel buf) buf).
+Proof. exact jumbf_repaired_total. Qed.
+
+(* --- history: the reader before 7b268693b ([strict = false], [cadd = false]); statements about the OLD function *)
+
+(* FIXED finding C10-F-JUMBF-HANG: a 41-byte input on which no amount of fuel sufficed, debug and release *)
+Theorem c10_jumbf_old_reader_hang :
   exists buf, known_short_tail buf /\ forall cadd dbg fuel, jread_super_box false cadd dbg fuel buf = OutOfFuel.
 Proof. exact jumbf_total_refuted. Qed.
 
-(* FINDING (debug panic): outside the hang class, a 59-byte input makes `start_pos + jumb_header.size` overflow. *)
-Theorem c10_jumbf_no_panic_refuted :
+(* FIXED finding C10-F-DESTPOS-OVERFLOW: `start_pos + jumb_header.size` overflowed in a debug build (59 bytes) *)
+Theorem c10_jumbf_old_reader_overflow :
   exists buf, ~ known_short_tail buf /\
               jread_super_box false false true (jfuel buf) buf = Panic SITE_DEST_POS 43 U64MAX.
 Proof. exact jumbf_no_panic_refuted. Qed.
 
-(* The strongest true statement for the reader as coded (any [strict], [cadd], [dbg]): outside the known class
-   [len + 2] units of fuel are enough and the outcome is Ok or Err; the only possible panic is the unchecked
-   dest_pos addition of a debug build, with start_pos + size above u64::MAX. *)
-Theorem c10_jumbf_total :
+(* what was true of the old reader: total outside the short-tail class, the only panic being that addition *)
+Theorem c10_jumbf_old_reader_total :
   forall strict cadd dbg buf,
     len buf <= U64MAX -> ~ known_short_tail buf ->
     match jread_super_box strict cadd dbg (jfuel buf) buf with
@@ -46,38 +76,12 @@ Theorem c10_jumbf_total :
     end.
 Proof. exact jumbf_total. Qed.
 
-(* release builds (wrapping arithmetic): never a panic outside the known class *)
-Theorem c10_jumbf_total_release :
-  forall strict cadd buf,
-    len buf <= U64MAX -> ~ known_short_tail buf ->
-    is_result (jread_super_box strict cadd false (jfuel buf) buf).
-Proof. exact jumbf_release_total. Qed.
-
-(* with the two proposed repairs (header read filled or rejected; dest_pos by checked_add) the reader is total
-   on EVERY byte string, in debug and release: the repairs are sufficient *)
-Theorem c10_jumbf_total_repaired :
-  forall dbg buf, len buf <= U64MAX -> is_result (jread_super_box true true dbg (jfuel buf) buf).
-Proof. exact jumbf_repaired_total. Qed.
-
-(* allocation: 8 bytes of input per box and one per retained content byte — linear in the input *)
-Theorem c10_jumbf_alloc :
-  forall strict cadd dbg buf p b a d,
-    len buf <= U64MAX -> ~ known_short_tail buf ->
-    jread_super_box strict cadd dbg (jfuel buf) buf = Ok (p, b, a, d) ->
-    8 * b + a <= len buf /\ p <= len buf.
-Proof. exact jumbf_alloc. Qed.
-
-(* depth: no superbox deeper than MAX_JUMB_DEPTH - 1 is ever entered, and the check precedes every read *)
-Theorem c10_jumbf_depth :
-  forall strict cadd dbg buf p b a d,
-    len buf <= U64MAX -> ~ known_short_tail buf ->
-    jread_super_box strict cadd dbg (jfuel buf) buf = Ok (p, b, a, d) -> d < MAX_JUMB_DEPTH.
-Proof. exact jumbf_depth. Qed.
-
-Theorem c10_jumbf_depth_refused :
-  forall strict cadd dbg depth buf pos,
-    MAX_JUMB_DEPTH <= depth -> jsuper_head strict cadd dbg depth buf pos = Err EBoxNestingTooDeep.
-Proof. exact too_deep. Qed.
+(* both old witnesses are ordinary errors for the reader as it stands *)
+Theorem c10_jumbf_old_witnesses_rejected :
+  forall dbg,
+    jread_as_coded dbg hang_witness = Err EInvalidJumbfHeader /\
+    jread_as_coded dbg overflow_witness = Err EInvalidJumbBox.
+Proof. exact old_witnesses_rejected. Qed.
 
 (* ------------------------------------------------------------------ PNG chunk walker *)
 
@@ -113,11 +117,9 @@ Proof. exact bt_call_too_deep. Qed.
 (* ------------------------------------------------------------------ the models compute non-trivial cases *)
 
 Example c10_models_run :
-  jread_super_box false false true (jfuel jumbf_example) jumbf_example = Ok (89, 4, 3, 1)
-  /\ ~ known_short_tail jumbf_example
+  jread_as_coded true jumbf_example = Ok (89, 4, 3, 1)
   /\ png_read true png_example = Ok (3, 48, Ok 3)
   /\ bmff_read true bmff_example = Ok ([(0, 16); (16, 16); (24, 8); (32, 11)], 2, 0).
 Proof.
-  split; [exact jumbf_example_runs|]. split; [unfold known_short_tail; rewrite jumbf_example_advancing; discriminate|].
-  split; [exact png_example_runs|exact bmff_example_runs].
+  split; [vm_compute; reflexivity|]. split; [exact png_example_runs|exact bmff_example_runs].
 Qed.
